@@ -42,7 +42,7 @@ Proof. destruct r; simpl; auto. Qed.
 Lemma decode1_width s : s <> [] -> (1 <= snd (decode1 s) <= length s)%nat.
 Proof.
   destruct s as [|b0 r]; [congruence|]. intros _. unfold decode1.
-  destruct (b0 <? 128); [simpl; lia|].
+  destruct ((0 <=? b0) && (b0 <? 128)); [simpl; lia|].
   destruct ((194 <=? b0) && (b0 <=? 223)).
   { destruct r as [|b1 r]; [simpl; lia|]. destruct (cont b1); simpl; lia. }
   destruct ((224 <=? b0) && (b0 <=? 239)).
@@ -250,7 +250,7 @@ Section Total.
     destruct (peek l) as [[t|e|] l1]; simpl; [| |exact H].
     - destruct H as [-> [l2 (Hs & He & Hle & Hlt)]].
       destruct (is_eof t) eqn:Ee; [split; [discriminate|reflexivity]|].
-      apply is_eof_false in Ee. split; [reflexivity|]. exists t, l2. auto.
+      apply is_eof_false in Ee. split; [reflexivity|]. exists t, l2. repeat split; auto.
     - destruct H as (?&?&?). auto.
   Qed.
 
@@ -284,3 +284,747 @@ Section Total.
     unfold tok_unquote. destruct (beq (t_kind t) TQuoted); [|exact I].
     apply fine_res_bind; [apply go_unquote_fine|]. intros u. destruct (valid_utf8 u); simpl; [exact I|discriminate].
   Qed.
+
+  (* potential: an upper bound on the number of state-machine steps still to run *)
+  Definition phi (st : pstate) (p : parser) : nat :=
+    let n := lxlen (p_lx p) in
+    match st with
+    | SEOF => 1 | SCloseBrace => 2 | SComma => n + 3 | SMatcher => n + 3 | SEndOfMatcher => n + 4 | SOpenBrace => n + 5
+    end.
+
+  Definition step_ok (st : pstate) (p : parser) (out : res (option pstate * parser)) : Prop :=
+    match out with
+    | Panic => False
+    | Err e => e <> "fuel"
+    | Ok (None, _) => True
+    | Ok (Some st', p') => (phi st' p' < phi st p)%nat
+    end.
+
+  Lemma is_eof_err_true {A} (r : res A) : is_eof_err r = true -> exists e, r = Err e.
+  Proof. destruct r; simpl; try discriminate. eauto. Qed.
+
+  Lemma new_matcher_fine t n v : fine (new_matcher compiles t n v).
+  Proof. unfold new_matcher. destruct (is_regex t && negb (compiles v)); simpl; [discriminate|exact I]. Qed.
+
+  Lemma parse_matcher_step_ok p : step_ok SMatcher p (parse_matcher_step is_space compiles p).
+  Proof.
+    unfold parse_matcher_step.
+    pose proof (expect_cases (p_lx p) [TQuoted; TUnquoted]) as H1.
+    destruct (expect is_space (p_lx p) [TQuoted; TUnquoted]) as [[t1|e1|] l1]; [|simpl; discriminate|exact H1].
+    destruct H1 as [_ Hl1].
+    pose proof (tok_unquote_fine t1) as Hu1. destruct (tok_unquote t1) as [name|?|]; [|simpl; discriminate|exact Hu1].
+    pose proof (expect_cases l1 [TEquals; TNotEquals; TMatches; TNotMatches]) as H2.
+    destruct (expect is_space l1 [TEquals; TNotEquals; TMatches; TNotMatches]) as [[t2|e2|] l2]; [|simpl; discriminate|exact H2].
+    destruct H2 as [Ho2 Hl2]. apply one_of_in in Ho2.
+    destruct (t_kind t2) eqn:Ek; simpl in Ho2; try (exfalso; intuition discriminate).
+    all: pose proof (expect_cases l2 [TUnquoted; TQuoted]) as H3;
+      destruct (expect is_space l2 [TUnquoted; TQuoted]) as [[t3|e3|] l3]; [|simpl; discriminate|exact H3];
+      destruct H3 as [_ Hl3];
+      pose proof (tok_unquote_fine t3) as Hu3; destruct (tok_unquote t3) as [value|?|]; [|simpl; discriminate|exact Hu3];
+      match goal with |- context [new_matcher compiles ?t ?n ?v] =>
+        pose proof (new_matcher_fine t n v) as Hn; destruct (new_matcher compiles t n v) as [m|?|] end;
+      simpl; [|exact Hn|exact Hn]; unfold lxlen in *; simpl; lia.
+  Qed.
+
+  Lemma pstep_ok st p : step_ok st p (pstep st p).
+  Proof.
+    destruct st; cbn [MatcherSyntax.pstep].
+    - (* SOpenBrace *)
+      pose proof (accept_cases (p_lx p) [TOpenBrace]) as H1.
+      destruct (accept is_space (p_lx p) [TOpenBrace]) as [r l1].
+      destruct (is_eof_err r) eqn:E1; [simpl; lia|].
+      destruct r as [has|e|]; [|simpl; tauto|exact H1]. cbn [res_bind].
+      pose proof (accept_peek_cases l1 [TCloseBrace]) as H2.
+      destruct (accept_peek is_space l1 [TCloseBrace]) as [r2 l2].
+      destruct (is_eof_err r2) eqn:E2; [simpl; lia|].
+      destruct r2 as [cb|e|]; [|simpl; tauto|exact H2]. cbn [res_bind].
+      destruct H2 as [-> _]. destruct cb; simpl; unfold lxlen in *; simpl; lia.
+    - (* SCloseBrace *)
+      pose proof (expect_cases (p_lx p) [TCloseBrace]) as H1.
+      destruct (expect is_space (p_lx p) [TCloseBrace]) as [r l1].
+      destruct (p_open p); destruct r; simpl; try lia; try discriminate; try exact H1.
+    - apply parse_matcher_step_ok.
+    - (* SEndOfMatcher *)
+      pose proof (expect_peek_cases (p_lx p) [TComma; TCloseBrace]) as H1.
+      destruct (expect_peek is_space (p_lx p) [TComma; TCloseBrace]) as [r l1].
+      destruct (is_eof_err r) eqn:E1; [simpl; lia|].
+      destruct r as [t|e|]; [|simpl; discriminate|exact H1].
+      destruct H1 as (-> & Ho & _). apply one_of_in in Ho.
+      destruct (t_kind t); simpl in Ho; try (exfalso; intuition discriminate); simpl; unfold lxlen; simpl; lia.
+    - (* SComma *)
+      pose proof (expect_cases (p_lx p) [TComma]) as H1.
+      destruct (expect is_space (p_lx p) [TComma]) as [[t|e|] l1]; [|simpl; discriminate|exact H1].
+      destruct H1 as [_ Hl1].
+      pose proof (expect_peek_cases l1 [TCloseBrace; TUnquoted; TQuoted]) as H2.
+      destruct (expect_peek is_space l1 [TCloseBrace; TUnquoted; TQuoted]) as [r2 l2].
+      destruct (is_eof_err r2) eqn:E2; [simpl; lia|].
+      destruct r2 as [t2|e|]; [|simpl; discriminate|exact H2].
+      destruct H2 as (-> & _). destruct (beq (t_kind t2) TCloseBrace); simpl; unfold lxlen in *; simpl; lia.
+    - (* SEOF *)
+      pose proof (scan_cases (p_lx p)) as H1.
+      destruct (scan (p_lx p)) as [[t|e|] l1]; [|simpl; discriminate|exact H1].
+      destruct (is_eof t); simpl; [exact I|discriminate].
+  Qed.
+
+  Lemma parse_loop_fine fuel : forall st p, (phi st p <= fuel)%nat -> fine (parse_loop fuel st p).
+  Proof.
+    induction fuel as [|f IH]; intros st p Hphi.
+    - destruct st; simpl in Hphi; lia.
+    - simpl. pose proof (pstep_ok st p) as H. destruct (pstep st p) as [[[st'|] p']|e|]; simpl in H |- *.
+      + apply IH. lia.
+      + exact I.
+      + exact H.
+      + exact H.
+  Qed.
+End Total.
+
+Lemma decode_all_f_length f : forall s, (length (decode_all_f f s) <= length s)%nat.
+Proof.
+  induction f as [|f IH]; intros s; simpl; [lia|].
+  destruct s as [|b r]; [simpl; lia|].
+  pose proof (decode1_width (b :: r) ltac:(discriminate)) as Hw.
+  destruct (decode1 (b :: r)) as [c w]. simpl in Hw. cbn [length].
+  specialize (IH (drop w (b :: r))). rewrite drop_length in IH. simpl in *. lia.
+Qed.
+
+(* parse.Matchers before its recover: never panics, never runs out of fuel, on any input and any tables *)
+Lemma utf8_parse_raw_fine is_space compiles s : fine (utf8_parse_raw is_space compiles s).
+Proof.
+  unfold utf8_parse_raw. apply parse_loop_fine. unfold phi, lxlen. simpl.
+  pose proof (decode_all_f_length (length s) s). unfold decode_all. lia.
+Qed.
+
+(* hence the deferred recover in parse.Matchers is dead code *)
+Lemma utf8_matchers_eq_raw is_space compiles s :
+  utf8_matchers is_space compiles s = utf8_parse_raw is_space compiles s.
+Proof.
+  unfold utf8_matchers. pose proof (utf8_parse_raw_fine is_space compiles s) as H.
+  destruct (utf8_parse_raw is_space compiles s); simpl in H; [reflexivity|reflexivity|contradiction].
+Qed.
+
+(* ---------- the classic parser: total by construction (structural recursion), and it has no panic outcome ---------- *)
+Lemma classic_unescape_fine rs : forall esc q, fine (classic_unescape rs esc q).
+Proof.
+  induction rs as [|x r IH]; intros esc q; simpl.
+  - destruct q; simpl; [discriminate|exact I].
+  - destruct esc; [apply fine_res_map, IH|].
+    destruct (fst x =? 92). { destruct r; [apply fine_res_map, IH|apply IH]. }
+    destruct (fst x =? 34). { destruct r; [destruct q; [apply IH|simpl; discriminate]|simpl; discriminate]. }
+    apply fine_res_map, IH.
+Qed.
+
+Lemma classic_matcher_fine compiles s : fine (classic_matcher compiles s).
+Proof.
+  unfold classic_matcher. destruct (classic_split s) as [[[name ty] rawv]|]; [|simpl; discriminate].
+  match goal with |- context [let '(a, b) := ?e in _] => destruct e as [rawv' q] end.
+  destruct (negb (valid_utf8 rawv')); [simpl; discriminate|].
+  apply fine_res_bind; [apply classic_unescape_fine|]. intros v. apply new_matcher_fine.
+Qed.
+
+Lemma map_res_fine {A B} (f : A -> res B) l : (forall a, fine (f a)) -> fine (map_res f l).
+Proof.
+  intros Hf. induction l as [|x r IH]; simpl; [exact I|].
+  apply fine_res_bind; [apply Hf|]. intros y. apply fine_res_map, IH.
+Qed.
+
+Lemma classic_matchers_fine is_space compiles s : fine (classic_matchers is_space compiles s).
+Proof.
+  unfold classic_matchers.
+  match goal with |- context [let '(a, b) := ?e in _] => destruct e as [ts last] end.
+  apply map_res_fine. intros a. apply classic_matcher_fine.
+Qed.
+
+Lemma fallback_fine {A} `{EqDecision A} (n c : res A) : fine n -> fine c -> fine (fallback n c).
+Proof.
+  unfold fallback. destruct c; simpl; intros Hn Hc; [|destruct n; simpl; auto|contradiction].
+  destruct n; [destruct (decide _)|..]; exact I.
+Qed.
+
+Lemma single_fine r : fine r -> fine (single r).
+Proof. intros H. unfold single. apply fine_res_bind; [exact H|]. intros [|m [|m' l]]; simpl; [discriminate|exact I|discriminate]. Qed.
+
+(* every entry point of matcher/compat, in every mode *)
+Lemma compat_matchers_fine is_space compiles md s : fine (compat_matchers is_space compiles md s).
+Proof.
+  destruct md; simpl.
+  - apply classic_matchers_fine.
+  - rewrite utf8_matchers_eq_raw. apply utf8_parse_raw_fine.
+  - apply fallback_fine; [rewrite utf8_matchers_eq_raw; apply utf8_parse_raw_fine|apply classic_matchers_fine].
+Qed.
+
+Lemma compat_matcher_fine is_space compiles md s : fine (compat_matcher is_space compiles md s).
+Proof.
+  assert (Hu : fine (utf8_matcher is_space compiles s)).
+  { unfold utf8_matcher. apply single_fine. rewrite utf8_matchers_eq_raw. apply utf8_parse_raw_fine. }
+  destruct md; simpl.
+  - apply classic_matcher_fine.
+  - destruct (has_brace s); [simpl; discriminate|exact Hu].
+  - destruct (has_brace s); [simpl; discriminate|]. apply fallback_fine; [exact Hu|apply classic_matcher_fine].
+Qed.
+
+(* ---------- UTF-8: canonical runes, decode/encode inverse ---------- *)
+(* a well-formed decoded rune: non-empty bytes that decode to exactly this rune, and not the error rune of width 1 *)
+Definition canon (x : Z * list Z) : Prop :=
+  snd x <> [] /\ decode1 (snd x) = (fst x, length (snd x)) /\ bad_rune x = false.
+
+Ltac split_hyp_ifs :=
+  repeat match goal with H : context [if ?c then _ else _] |- _ => destruct c eqn:? end.
+Ltac split_ifs :=
+  repeat match goal with |- context [if ?c then _ else _] => destruct c eqn:? end.
+
+Lemma decode1_app r bs rest : canon (r, bs) -> decode1 (bs ++ rest) = (r, length bs).
+Proof.
+  intros (Hne & Hd & Hb). simpl in *. unfold bad_rune in Hb. simpl in Hb. revert Hd Hb.
+  destruct bs as [|b0 [|b1 [|b2 [|b3 [|b4 bs']]]]]; [congruence|..]; unfold decode1; simpl app; simpl length;
+    split_ifs; intros Hd Hb; inversion Hd; subst; try reflexivity; try (simpl in Hb; discriminate).
+Qed.
+
+Lemma decode1_take s r w : s <> [] -> decode1 s = (r, w) -> decode1 (take w s) = (r, w).
+Proof.
+  intros Hne. destruct s as [|b0 [|b1 [|b2 [|b3 s']]]]; [congruence|..]; unfold decode1;
+    split_ifs; intros Hd; inversion Hd; subst; simpl take; unfold decode1;
+    repeat match goal with H : ?c = _ |- context [?c] => rewrite H end; try reflexivity.
+Qed.
+
+Local Arguments decode1 : simpl never.
+
+Lemma decode_all_f_enough f1 : forall f2 s, (length s <= f1)%nat -> (length s <= f2)%nat ->
+  decode_all_f f1 s = decode_all_f f2 s.
+Proof.
+  induction f1 as [|f1 IH]; intros f2 s H1 H2.
+  - destruct s; [|simpl in H1; lia]. destruct f2; reflexivity.
+  - destruct s as [|b r]; [destruct f2; reflexivity|].
+    destruct f2 as [|f2]; [simpl in H2; lia|]. simpl.
+    pose proof (decode1_width (b :: r) ltac:(discriminate)) as Hw.
+    destruct (decode1 (b :: r)) as [c w]. simpl in Hw. f_equal.
+    apply IH; rewrite drop_length; simpl in *; lia.
+Qed.
+
+Lemma decode_all_nil : decode_all [] = [].
+Proof. reflexivity. Qed.
+
+Lemma decode_all_cons s : s <> [] ->
+  decode_all s = (fst (decode1 s), take (snd (decode1 s)) s) :: decode_all (drop (snd (decode1 s)) s).
+Proof.
+  intros Hne. destruct s as [|b r]; [congruence|]. unfold decode_all at 1. simpl length. simpl decode_all_f.
+  pose proof (decode1_width (b :: r) ltac:(discriminate)) as Hw.
+  destruct (decode1 (b :: r)) as [c w]. simpl in *. f_equal.
+  apply decode_all_f_enough; rewrite ?drop_length; simpl; lia.
+Qed.
+
+Lemma decode_all_canon_app r bs rest : canon (r, bs) -> decode_all (bs ++ rest) = (r, bs) :: decode_all rest.
+Proof.
+  intros Hc. pose proof Hc as (Hne & _ & _). simpl in Hne.
+  rewrite decode_all_cons by (destruct bs; [congruence|discriminate]).
+  rewrite (decode1_app r bs rest Hc). simpl. rewrite (take_app bs rest), (drop_app bs rest). reflexivity.
+Qed.
+
+Lemma decode_all_raw X rest : Forall canon X -> decode_all (raw X ++ rest) = X ++ decode_all rest.
+Proof.
+  induction 1 as [|[r bs] X Hc HX IH]; [reflexivity|].
+  unfold raw in *. simpl. rewrite <- app_assoc. rewrite (decode_all_canon_app r bs _ Hc). rewrite IH. reflexivity.
+Qed.
+
+Lemma decode_all_f_props f : forall s, (length s <= f)%nat ->
+  raw (decode_all_f f s) = s /\ Forall (fun x => bad_rune x = false -> canon x) (decode_all_f f s).
+Proof.
+  induction f as [|f IH]; intros s Hl.
+  - destruct s; [|simpl in Hl; lia]. split; [reflexivity|constructor].
+  - destruct s as [|b r]; [split; [reflexivity|constructor]|]. simpl.
+    pose proof (decode1_width (b :: r) ltac:(discriminate)) as Hw.
+    pose proof (decode1_take (b :: r) (fst (decode1 (b :: r))) (snd (decode1 (b :: r))) ltac:(discriminate)) as Ht.
+    destruct (decode1 (b :: r)) as [c w] eqn:Ed. simpl in Hw, Ht. specialize (Ht eq_refl).
+    destruct (IH (drop w (b :: r))) as [Hr Hf]. { rewrite drop_length. simpl in *. lia. }
+    split.
+    + unfold raw in *. simpl. rewrite Hr. apply take_drop.
+    + constructor; [|exact Hf]. intros Hb. unfold canon. simpl.
+      assert (Hlen : length (take w (b :: r)) = w) by (apply take_length_le; simpl; lia).
+      split; [destruct w; [lia|simpl; discriminate]|]. split; [rewrite Hlen; exact Ht|exact Hb].
+Qed.
+
+Lemma raw_decode_all s : raw (decode_all s) = s.
+Proof. apply decode_all_f_props. lia. Qed.
+
+Lemma valid_decode_canon s : valid_utf8 s = true -> Forall canon (decode_all s).
+Proof.
+  unfold valid_utf8. rewrite forallb_forall. intros Hv.
+  destruct (decode_all_f_props (length s) s ltac:(lia)) as [_ Hf]. fold (decode_all s) in Hf.
+  rewrite List.Forall_forall in Hf |- *. intros x Hin. apply Hf; [exact Hin|].
+  specialize (Hv x Hin). apply negb_true_iff in Hv. exact Hv.
+Qed.
+
+Lemma canon_ascii_intro c : 0 <= c < 128 -> canon (c, [c]).
+Proof.
+  intros Hc. unfold canon, bad_rune, decode1. simpl. split; [discriminate|].
+  destruct ((0 <=? c) && (c <? 128)) eqn:E; [|lia]. split; [reflexivity|]. unfold RuneError.
+  destruct (c =? 65533) eqn:E2; [lia|reflexivity].
+Qed.
+
+(* an ASCII rune is read from exactly its own byte; a rune >= 128 from bytes that are all >= 128 *)
+Lemma canon_ascii r bs : canon (r, bs) -> r < 128 -> bs = [r].
+Proof.
+  intros (Hne & Hd & Hb) Hr. simpl in *. unfold bad_rune in Hb. simpl in Hb. revert Hd Hb.
+  destruct bs as [|b0 [|b1 [|b2 [|b3 [|b4 bs']]]]]; [congruence|..]; unfold decode1; simpl length;
+    split_ifs; intros Hd Hb; inversion Hd; subst; try reflexivity; try (simpl in Hb; discriminate);
+    unfold RuneError, cont in *; exfalso; split_hyp_ifs; lia.
+Qed.
+
+Lemma canon_multi r bs : canon (r, bs) -> 128 <= r -> Forall (fun b => 128 <= b) bs.
+Proof.
+  intros (Hne & Hd & Hb) Hr. simpl in *. unfold bad_rune in Hb. simpl in Hb. revert Hd Hb.
+  destruct bs as [|b0 [|b1 [|b2 [|b3 [|b4 bs']]]]]; [congruence|..]; unfold decode1; simpl length;
+    split_ifs; intros Hd Hb; inversion Hd; subst; try (simpl in Hb; discriminate);
+    unfold cont in *; repeat constructor; split_hyp_ifs; lia.
+Qed.
+
+(* utf8.AppendRune inverts utf8.DecodeRune on every well-formed rune *)
+Lemma encode_decode r bs : canon (r, bs) -> encode_rune r = bs.
+Proof.
+  intros (Hne & Hd & Hb). simpl in *. unfold bad_rune in Hb. simpl in Hb. revert Hd Hb.
+  destruct bs as [|b0 [|b1 [|b2 [|b3 [|b4 bs']]]]]; [congruence|..]; unfold decode1; simpl length;
+    split_ifs; intros Hd Hb; inversion Hd; subst; try (simpl in Hb; discriminate);
+    unfold encode_rune, cont, RuneError in *; split_hyp_ifs; split_ifs; try (exfalso; lia);
+    repeat f_equal; Z.div_mod_to_equations; lia.
+Qed.
+
+Lemma raw_app X Y : raw (X ++ Y) = raw X ++ raw Y.
+Proof. unfold raw. rewrite map_app, concat_app. reflexivity. Qed.
+
+(* ---------- the printed form of a matcher, as runes ---------- *)
+Definition asc (b : Z) : Z * list Z := (b, [b]).
+Definition esc_rune (x : Z * list Z) : list (Z * list Z) :=
+  if fst x =? 92 then [asc 92; asc 92] else if fst x =? 10 then [asc 92; asc 110]
+  else if fst x =? 34 then [asc 92; asc 34] else [x].
+Definition mrunes (m : bm) : list (Z * list Z) :=
+  decode_all (b_name m) ++ map asc (op_bytes (b_type m)) ++ [asc 34] ++
+  flat_map esc_rune (decode_all (b_value m)) ++ [asc 34].
+
+Lemma om_escape_app a b : om_escape (a ++ b) = om_escape a ++ om_escape b.
+Proof. unfold om_escape. apply flat_map_app. Qed.
+
+Lemma om_escape_high bs : Forall (fun b => 128 <= b) bs -> om_escape bs = bs.
+Proof.
+  induction 1 as [|b bs Hb _ IH]; [reflexivity|]. unfold om_escape in *. simpl. rewrite IH.
+  destruct (b =? 92) eqn:E1; [lia|]. destruct (b =? 10) eqn:E2; [lia|]. destruct (b =? 34) eqn:E3; [lia|]. reflexivity.
+Qed.
+
+Lemma raw_esc V : Forall canon V -> raw (flat_map esc_rune V) = om_escape (raw V).
+Proof.
+  induction 1 as [|[r bs] V Hc _ IH]; [reflexivity|].
+  simpl. rewrite raw_app, IH. unfold raw at 3. simpl. fold (raw V). rewrite om_escape_app. f_equal.
+  unfold esc_rune. simpl.
+  destruct (r =? 92) eqn:E1. { rewrite (canon_ascii r bs Hc) by lia. assert (r = 92) by lia. subst. reflexivity. }
+  destruct (r =? 10) eqn:E2. { rewrite (canon_ascii r bs Hc) by lia. assert (r = 10) by lia. subst. reflexivity. }
+  destruct (r =? 34) eqn:E3. { rewrite (canon_ascii r bs Hc) by lia. assert (r = 34) by lia. subst. reflexivity. }
+  unfold raw. simpl. rewrite app_nil_r.
+  destruct (Z_lt_le_dec r 128) as [Hlt|Hge].
+  - rewrite (canon_ascii r bs Hc Hlt). unfold om_escape. simpl. rewrite E1, E2, E3. reflexivity.
+  - symmetry. apply om_escape_high. apply (canon_multi r bs Hc Hge).
+Qed.
+
+Lemma canon_esc V : Forall canon V -> Forall canon (flat_map esc_rune V).
+Proof.
+  induction 1 as [|x V Hc _ IH]; [constructor|]. simpl. apply Forall_app. split; [|exact IH].
+  unfold esc_rune, asc.
+  repeat case_match; repeat (apply List.Forall_cons; [first [exact Hc | apply canon_ascii_intro; lia]|]); apply List.Forall_nil.
+Qed.
+
+Lemma canon_ops t : Forall canon (map asc (op_bytes t)).
+Proof.
+  destruct t; simpl; unfold asc; repeat (apply List.Forall_cons; [apply canon_ascii_intro; lia|]); apply List.Forall_nil.
+Qed.
+
+Lemma raw_ops t : raw (map asc (op_bytes t)) = op_bytes t.
+Proof. destruct t; reflexivity. Qed.
+
+Section RoundTrip.
+  Variable is_space : Z -> bool.
+  Variable is_print : Z -> bool.
+  Variable compiles : list Z -> bool.
+
+  (* the sub-class of the partial round-trip theorem: non-empty valid-UTF-8 name without reserved runes (printed in
+     the OpenMetrics form), valid-UTF-8 value, and a value that compiles when the operator is a regexp one *)
+  Definition plain (m : bm) : Prop :=
+    b_name m <> [] /\ valid_utf8 (b_name m) = true /\
+    existsb (fun x => is_reserved is_space (fst x)) (decode_all (b_name m)) = false /\
+    valid_utf8 (b_value m) = true /\ (is_regex (b_type m) = true -> compiles (b_value m) = true).
+
+  Lemma mrunes_canon m : plain m -> Forall canon (mrunes m).
+  Proof.
+    intros (Hne & Hvn & Hres & Hvv & Hre). unfold mrunes.
+    repeat (apply Forall_app; split).
+    - apply valid_decode_canon, Hvn.
+    - apply canon_ops.
+    - apply List.Forall_cons; [apply canon_ascii_intro; lia|apply List.Forall_nil].
+    - apply canon_esc, valid_decode_canon, Hvv.
+    - apply List.Forall_cons; [apply canon_ascii_intro; lia|apply List.Forall_nil].
+  Qed.
+
+  Lemma raw_mrunes m : plain m -> raw (mrunes m) = print_b is_space is_print m.
+  Proof.
+    intros (Hne & Hvn & Hres & Hvv & Hre). unfold mrunes, print_b. rewrite Hres.
+    rewrite !raw_app, raw_decode_all, raw_ops, raw_esc by (apply valid_decode_canon, Hvv).
+    rewrite raw_decode_all. reflexivity.
+  Qed.
+
+  Lemma decode_print m rest : plain m ->
+    decode_all (print_b is_space is_print m ++ rest) = mrunes m ++ decode_all rest.
+  Proof. intros Hp. rewrite <- (raw_mrunes m Hp). apply decode_all_raw, mrunes_canon, Hp. Qed.
+
+  Notation scan_go := (scan_go is_space).
+  Notation is_reserved := (is_reserved is_space).
+
+  Lemma existsb_false_forallb {A} (g : A -> bool) l :
+    existsb g l = false -> forallb (fun x => negb (g x)) l = true.
+  Proof. induction l as [|x r IH]; simpl; [reflexivity|]. intros H. apply orb_false_elim in H as [H1 H2]. rewrite H1, IH by exact H2. reflexivity. Qed.
+
+  Lemma takew_dropw_app {A} (f : A -> bool) N rest :
+    forallb f N = true -> match rest with [] => True | y :: _ => f y = false end ->
+    takew f (N ++ rest) = N /\ dropw f (N ++ rest) = rest.
+  Proof.
+    intros HN Hr. induction N as [|x N IH].
+    - destruct rest as [|y r]; [split; reflexivity|]. unfold takew, dropw. simpl. rewrite Hr. split; reflexivity.
+    - simpl in HN. apply andb_true_iff in HN as [Hx HN]. destruct (IH HN) as [IH1 IH2].
+      unfold takew, dropw in *. simpl. rewrite Hx. rewrite IH1, IH2. split; reflexivity.
+  Qed.
+
+  Lemma scan_name N rest :
+    N <> [] -> forallb (fun x => negb (is_reserved (fst x))) N = true ->
+    match rest with [] => True | y :: _ => is_reserved (fst y) = true end ->
+    scan_go (N ++ rest) = (Ok (mkTok TUnquoted (raw N)), rest).
+  Proof.
+    intros Hne HN Hr. destruct N as [|x N']; [congruence|].
+    pose proof HN as HN0. simpl in HN0. apply andb_true_iff in HN0 as [Hx _].
+    apply negb_true_iff in Hx. pose proof Hx as Hx0. unfold MatcherSyntax.is_reserved in Hx0.
+    repeat (apply orb_false_elim in Hx0 as [Hx0 ?]).
+    destruct (takew_dropw_app (fun x => negb (is_reserved (fst x))) (x :: N') rest HN) as [Ht Hd].
+    { destruct rest; [exact I|]. rewrite Hr. reflexivity. }
+    change ((x :: N') ++ rest) with (x :: (N' ++ rest)) in *.
+    cbn [MatcherSyntax.scan_go].
+    repeat match goal with H : (_ =? _) = false |- _ => rewrite H; clear H end.
+    simpl orb. cbv iota. rewrite Hx. simpl negb. cbv iota.
+    unfold scan_unquoted. rewrite Ht, Hd. reflexivity.
+  Qed.
+
+  Definition op_kind (t : mtype) : tkind :=
+    match t with MEq => TEquals | MNeq => TNotEquals | MRe => TMatches | MNre => TNotMatches end.
+
+  Lemma scan_op t rest :
+    scan_go (map asc (op_bytes t) ++ asc 34 :: rest) = (Ok (mkTok (op_kind t) (op_bytes t)), asc 34 :: rest).
+  Proof. destruct t; reflexivity. Qed.
+
+  Lemma quoted_body_esc V rest :
+    quoted_body (flat_map esc_rune V ++ asc 34 :: rest) false = Some (flat_map esc_rune V ++ [asc 34], rest).
+  Proof.
+    induction V as [|x V IH]; [reflexivity|]. simpl. unfold esc_rune at 1 3.
+    destruct (fst x =? 92) eqn:E1; [simpl; rewrite IH; reflexivity|].
+    destruct (fst x =? 10) eqn:E2; [simpl; rewrite IH; reflexivity|].
+    destruct (fst x =? 34) eqn:E3; [simpl; rewrite IH; reflexivity|].
+    simpl. rewrite E1, E3, IH. reflexivity.
+  Qed.
+
+  Lemma scan_value V rest :
+    scan_go (asc 34 :: flat_map esc_rune V ++ asc 34 :: rest)
+    = (Ok (mkTok TQuoted (34 :: raw (flat_map esc_rune V) ++ [34])), rest).
+  Proof.
+    cbn [MatcherSyntax.scan_go]. simpl fst. simpl Z.eqb. simpl orb. cbv iota.
+    unfold scan_quoted. simpl fst. simpl Z.eqb. cbv iota.
+    rewrite quoted_body_esc. simpl snd. rewrite raw_app. reflexivity.
+  Qed.
+
+  Lemma unquote_esc V : Forall canon V -> forall fuel, (length (raw (flat_map esc_rune V)) < fuel)%nat ->
+    unquote_body fuel (raw (flat_map esc_rune V) ++ [34]) = Ok (raw V).
+  Proof.
+    induction 1 as [|[r bs] V Hc HV IH]; intros fuel Hf.
+    - destruct fuel; [simpl in Hf; lia|]. reflexivity.
+    - simpl flat_map in *. set (EV := flat_map esc_rune V) in *.
+      rewrite raw_app in *. rewrite app_length in Hf.
+      change (raw ((r, bs) :: V)) with (bs ++ raw V).
+      rewrite <- app_assoc. remember (raw EV ++ [34]) as tq eqn:Htq.
+      destruct fuel as [|f]; [lia|].
+      unfold esc_rune in *. simpl fst in *.
+      destruct (r =? 92) eqn:E1.
+      { assert (r = 92) by lia. subst r. rewrite (canon_ascii 92 bs Hc) by lia.
+        simpl. rewrite IH by (simpl in Hf; lia). reflexivity. }
+      destruct (r =? 10) eqn:E2.
+      { assert (r = 10) by lia. subst r. rewrite (canon_ascii 10 bs Hc) by lia.
+        simpl. rewrite IH by (simpl in Hf; lia). reflexivity. }
+      destruct (r =? 34) eqn:E3.
+      { assert (r = 34) by lia. subst r. rewrite (canon_ascii 34 bs Hc) by lia.
+        simpl. rewrite IH by (simpl in Hf; lia). reflexivity. }
+      change (raw [(r, bs)]) with (bs ++ []) in *. rewrite app_nil_r in *.
+      destruct (Z_lt_le_dec r 128) as [Hlt|Hge].
+      + rewrite (canon_ascii r bs Hc Hlt) in *. simpl app. cbn [unquote_body]. rewrite E3, E2.
+        unfold unquote_char. rewrite E3. destruct (128 <=? r) eqn:E4; [lia|]. rewrite E1. simpl negb. cbv iota.
+        destruct (r <? 128) eqn:E5; [|lia]. simpl orb. cbv iota.
+        rewrite IH by (simpl in Hf; lia). reflexivity.
+      + pose proof (canon_multi r bs Hc Hge) as Hhigh. pose proof Hc as (Hne & _ & _). simpl in Hne.
+        destruct bs as [|b0 bs']; [congruence|]. apply Forall_cons in Hhigh as [Hb0 _].
+        change ((b0 :: bs') ++ tq) with (b0 :: (bs' ++ tq)). cbn [unquote_body].
+        destruct (b0 =? 34) eqn:E4; [lia|]. destruct (b0 =? 10) eqn:E5; [lia|].
+        unfold unquote_char. rewrite E4. destruct (128 <=? b0) eqn:E6; [|lia].
+        change (b0 :: bs' ++ tq) with ((b0 :: bs') ++ tq).
+        rewrite (decode1_app r (b0 :: bs') tq Hc). rewrite (drop_app (b0 :: bs') tq).
+        destruct (r <? 128) eqn:E7; [lia|]. simpl orb. cbv iota.
+        rewrite (encode_decode r (b0 :: bs') Hc).
+        rewrite IH by (simpl in Hf; lia). reflexivity.
+  Qed.
+
+  Lemma tok_unquote_printed v : valid_utf8 v = true ->
+    tok_unquote (mkTok TQuoted (34 :: raw (flat_map esc_rune (decode_all v)) ++ [34])) = Ok v.
+  Proof.
+    intros Hv. unfold tok_unquote. simpl t_kind. simpl t_value.
+    assert (Hg : go_unquote (34 :: raw (flat_map esc_rune (decode_all v)) ++ [34]) = Ok v).
+    { unfold go_unquote.
+      pose proof (unquote_esc (decode_all v) (valid_decode_canon v Hv)
+                    (length (34 :: raw (flat_map esc_rune (decode_all v)) ++ [34]))) as H.
+      rewrite raw_decode_all in H.
+      destruct (raw (flat_map esc_rune (decode_all v)) ++ [34]) as [|d body] eqn:E.
+      { destruct (raw (flat_map esc_rune (decode_all v))); discriminate. }
+      apply H. apply (f_equal length) in E. rewrite app_length in E. simpl in *. lia. }
+    replace (beq TQuoted TQuoted) with true by reflexivity.
+    rewrite Hg. simpl. rewrite Hv. reflexivity.
+  Qed.
+
+  (* ----- parser level ----- *)
+  Notation expect := (expect is_space).
+  Notation expect_peek := (expect_peek is_space).
+  Notation pstep := (pstep is_space compiles).
+  Notation parse_loop := (parse_loop is_space compiles).
+
+  Lemma parse_loop_irrel f : forall f' st p, (phi st p <= f)%nat -> (phi st p <= f')%nat ->
+    parse_loop f st p = parse_loop f' st p.
+  Proof.
+    induction f as [|f IH]; intros f' st p H1 H2.
+    - destruct st; simpl in H1; lia.
+    - destruct f' as [|f']; [destruct st; simpl in H2; lia|]. simpl.
+      pose proof (pstep_ok is_space compiles st p) as H. destruct (pstep st p) as [[[st'|] p']|e|]; simpl in H; try reflexivity.
+      apply IH; lia.
+  Qed.
+
+  Lemma expect_scan rs t rs' ks :
+    scan_go rs = (Ok t, rs') -> is_eof t = false -> one_of t ks = true ->
+    expect (mkLx rs false) ks = (Ok t, mkLx rs' false).
+  Proof.
+    intros Hs He Ho. unfold MatcherSyntax.expect, MatcherSyntax.expect_peek, MatcherSyntax.peek, MatcherSyntax.scan.
+    simpl. rewrite Hs. simpl. rewrite He, Ho. simpl. rewrite Hs. reflexivity.
+  Qed.
+
+  Lemma expect_peek_scan rs t rs' ks :
+    scan_go rs = (Ok t, rs') -> is_eof t = false -> one_of t ks = true ->
+    expect_peek (mkLx rs false) ks = (Ok t, mkLx rs false).
+  Proof.
+    intros Hs He Ho. unfold MatcherSyntax.expect_peek, MatcherSyntax.peek, MatcherSyntax.scan.
+    simpl. rewrite Hs. simpl. rewrite He, Ho. reflexivity.
+  Qed.
+
+  Lemma op_reserved t rest : match map asc (op_bytes t) ++ rest with [] => True | y :: _ => is_reserved (fst y) = true end.
+  Proof. destruct t; simpl; unfold MatcherSyntax.is_reserved; destruct (is_space _); reflexivity. Qed.
+
+  Lemma mrunes_shape m rest :
+    mrunes m ++ rest =
+    decode_all (b_name m) ++ (map asc (op_bytes (b_type m)) ++ asc 34 :: (flat_map esc_rune (decode_all (b_value m)) ++ asc 34 :: rest)).
+  Proof. unfold mrunes. rewrite <- !app_assoc. reflexivity. Qed.
+
+  Lemma first_token m rest : plain m ->
+    scan_go (mrunes m ++ rest) =
+    (Ok (mkTok TUnquoted (b_name m)),
+     map asc (op_bytes (b_type m)) ++ asc 34 :: (flat_map esc_rune (decode_all (b_value m)) ++ asc 34 :: rest)).
+  Proof.
+    intros (Hne & Hvn & Hres & Hvv & Hre). rewrite mrunes_shape.
+    rewrite scan_name.
+    - rewrite raw_decode_all. reflexivity.
+    - intros E. apply Hne. rewrite <- (raw_decode_all (b_name m)), E. reflexivity.
+    - apply existsb_false_forallb. exact Hres.
+    - apply op_reserved.
+  Qed.
+
+  Lemma op_kind_one_of t v : one_of (mkTok (op_kind t) v) [TEquals; TNotEquals; TMatches; TNotMatches] = true.
+  Proof. destruct t; reflexivity. Qed.
+
+  Lemma matcher_step m acc opn rest : plain m ->
+    parse_matcher_step is_space compiles (mkP acc opn (mkLx (mrunes m ++ rest) false))
+    = Ok (Some SEndOfMatcher, mkP (acc ++ [m]) opn (mkLx rest false)).
+  Proof.
+    intros Hp. pose proof Hp as (Hne & Hvn & Hres & Hvv & Hre).
+    unfold parse_matcher_step. simpl p_lx.
+    rewrite (expect_scan _ _ _ _ (first_token m rest Hp)) by reflexivity.
+    unfold tok_unquote at 1. simpl t_kind. replace (beq TUnquoted TQuoted) with false by reflexivity. simpl t_value.
+    rewrite (expect_scan _ _ _ _ (scan_op (b_type m) _)); [|destruct (b_type m); reflexivity|apply op_kind_one_of].
+    rewrite (expect_scan _ _ _ _ (scan_value (decode_all (b_value m)) rest)) by reflexivity.
+    rewrite tok_unquote_printed by exact Hvv.
+    assert (Hnm : new_matcher compiles (b_type m) (b_name m) (b_value m) = Ok m).
+    { unfold new_matcher. destruct (is_regex (b_type m)) eqn:Er; [rewrite (Hre eq_refl)|]; destruct m; reflexivity. }
+    destruct (b_type m) eqn:Et; simpl t_kind; cbv iota; rewrite Hnm; reflexivity.
+  Qed.
+
+  (* a printed matcher list, as runes *)
+  Fixpoint jr (ms : list bm) : list (Z * list Z) :=
+    match ms with
+    | [] => []
+    | m :: r => match r with [] => mrunes m | _ => mrunes m ++ asc 44 :: jr r end
+    end.
+
+  Lemma decode_join ms rest : Forall plain ms ->
+    decode_all (join_comma (map (print_b is_space is_print) ms) ++ rest) = jr ms ++ decode_all rest.
+  Proof.
+    induction 1 as [|m r Hm Hr IH]; [reflexivity|].
+    destruct r as [|m' r'].
+    - simpl. apply decode_print, Hm.
+    - change (join_comma (map (print_b is_space is_print) (m :: m' :: r')))
+        with (print_b is_space is_print m ++ [44] ++ join_comma (map (print_b is_space is_print) (m' :: r'))).
+      change (jr (m :: m' :: r')) with (mrunes m ++ asc 44 :: jr (m' :: r')).
+      rewrite <- !app_assoc. rewrite decode_print by exact Hm.
+      rewrite (decode_all_canon_app 44 [44]) by (apply canon_ascii_intro; lia).
+      rewrite IH. reflexivity.
+  Qed.
+
+  Definition closer (opn : bool) : list (Z * list Z) := if opn then [asc 125] else [].
+
+  Lemma jr_first m r : exists tl, forall T, jr (m :: r) ++ T = mrunes m ++ tl T.
+  Proof.
+    destruct r as [|m' r'].
+    - exists (fun T => T). reflexivity.
+    - exists (fun T => asc 44 :: jr (m' :: r') ++ T). intros T. simpl. rewrite <- app_assoc. reflexivity.
+  Qed.
+
+  Lemma parse_loop_S f st p :
+    parse_loop (S f) st p =
+    match pstep st p with
+    | Ok (None, p') => Ok (p_ms p')
+    | Ok (Some st', p') => parse_loop f st' p'
+    | Err e => Err e
+    | Panic => Panic
+    end.
+  Proof. reflexivity. Qed.
+
+  Lemma step_end_comma acc opn X :
+    pstep SEndOfMatcher (mkP acc opn (mkLx (asc 44 :: X) false)) = Ok (Some SComma, mkP acc opn (mkLx (asc 44 :: X) false)).
+  Proof. reflexivity. Qed.
+
+  Lemma step_comma_matcher acc opn m X : plain m ->
+    pstep SComma (mkP acc opn (mkLx (asc 44 :: (mrunes m ++ X)) false))
+    = Ok (Some SMatcher, mkP acc opn (mkLx (mrunes m ++ X) false)).
+  Proof.
+    intros Hm. cbn [MatcherSyntax.pstep p_lx].
+    rewrite (expect_scan _ (mkTok TComma [44]) (mrunes m ++ X)) by reflexivity.
+    rewrite (expect_peek_scan _ _ _ _ (first_token m X Hm)) by reflexivity.
+    reflexivity.
+  Qed.
+
+  (* after the last matcher: close brace (if one was opened) and end of input *)
+  Lemma tail_steps acc opn f :
+    parse_loop (S (S (S f))) SEndOfMatcher (mkP acc opn (mkLx (closer opn) false)) = Ok acc.
+  Proof. destruct opn; reflexivity. Qed.
+
+  Lemma loop_matchers ms : Forall plain ms -> ms <> [] -> forall acc opn fuel, (3 * length ms + 2 <= fuel)%nat ->
+    parse_loop fuel SMatcher (mkP acc opn (mkLx (jr ms ++ closer opn) false)) = Ok (acc ++ ms).
+  Proof.
+    induction 1 as [|m r Hm Hr IH]; [congruence|]. intros _ acc opn fuel Hf.
+    destruct r as [|m' r'].
+    - (* last matcher *)
+      do 4 (destruct fuel as [|fuel]; [simpl in Hf; lia|]).
+      rewrite parse_loop_S. change (jr [m]) with (mrunes m).
+      change (pstep SMatcher) with (parse_matcher_step is_space compiles).
+      rewrite matcher_step by exact Hm. apply tail_steps.
+    - do 3 (destruct fuel as [|fuel]; [simpl in Hf; lia|]).
+      change (jr (m :: m' :: r')) with (mrunes m ++ asc 44 :: jr (m' :: r')).
+      rewrite <- app_assoc. rewrite parse_loop_S.
+      change (pstep SMatcher) with (parse_matcher_step is_space compiles).
+      rewrite matcher_step by exact Hm.
+      change ((asc 44 :: jr (m' :: r')) ++ closer opn) with (asc 44 :: (jr (m' :: r') ++ closer opn)).
+      rewrite parse_loop_S, step_end_comma.
+      destruct (jr_first m' r') as [tl Htl]. rewrite Htl.
+      rewrite parse_loop_S, step_comma_matcher by exact (Forall_inv Hr).
+      rewrite <- Htl.
+      rewrite (IH ltac:(discriminate) (acc ++ [m]) opn fuel) by (simpl in *; lia).
+      rewrite <- app_assoc. reflexivity.
+  Qed.
+
+  Lemma accept_peek_scan rs t rs' ks :
+    scan_go rs = (Ok t, rs') -> is_eof t = false ->
+    accept_peek is_space (mkLx rs false) ks = (Ok (one_of t ks), mkLx rs false).
+  Proof.
+    intros Hs He. unfold accept_peek, MatcherSyntax.peek, MatcherSyntax.scan. simpl. rewrite Hs. simpl. rewrite He. reflexivity.
+  Qed.
+
+  Lemma step_open_nobrace m X : plain m ->
+    pstep SOpenBrace (mkP [] false (mkLx (mrunes m ++ X) false))
+    = Ok (Some SMatcher, mkP [] false (mkLx (mrunes m ++ X) false)).
+  Proof.
+    intros Hm. cbn [MatcherSyntax.pstep p_lx p_ms]. unfold accept.
+    rewrite (accept_peek_scan _ _ _ _ (first_token m X Hm)) by reflexivity.
+    replace (one_of _ [TOpenBrace]) with false by reflexivity. cbn [is_eof_err res_bind].
+    rewrite (accept_peek_scan _ _ _ _ (first_token m X Hm)) by reflexivity.
+    reflexivity.
+  Qed.
+
+  Lemma step_open_brace m X : plain m ->
+    pstep SOpenBrace (mkP [] false (mkLx (asc 123 :: (mrunes m ++ X)) false))
+    = Ok (Some SMatcher, mkP [] true (mkLx (mrunes m ++ X) false)).
+  Proof.
+    intros Hm. cbn [MatcherSyntax.pstep p_lx p_ms]. unfold accept.
+    rewrite (accept_peek_scan _ (mkTok TOpenBrace [123]) (mrunes m ++ X)) by reflexivity.
+    replace (one_of _ [TOpenBrace]) with true by reflexivity.
+    replace (MatcherSyntax.scan is_space (mkLx (asc 123 :: (mrunes m ++ X)) false))
+      with (Ok (mkTok TOpenBrace [123]), mkLx (mrunes m ++ X) false) by reflexivity.
+    cbn [is_eof_err res_bind].
+    rewrite (accept_peek_scan _ _ _ _ (first_token m X Hm)) by reflexivity.
+    reflexivity.
+  Qed.
+
+  Lemma phi_open s :
+    (phi SOpenBrace (mkP [] false (mkLx (decode_all s) false)) <= length s + 6)%nat.
+  Proof. unfold phi, lxlen. simpl. pose proof (decode_all_f_length (length s) s). unfold decode_all. lia. Qed.
+
+  (* print then parse, one matcher (no braces) *)
+  Lemma roundtrip_single m : plain m ->
+    utf8_matchers is_space compiles (print_b is_space is_print m) = Ok [m].
+  Proof.
+    intros Hm. rewrite utf8_matchers_eq_raw. unfold utf8_parse_raw.
+    set (s := print_b is_space is_print m).
+    rewrite (parse_loop_irrel _ (S (length s + 6)) _ _ (phi_open s)) by (pose proof (phi_open s); lia).
+    pose proof (decode_print m [] Hm) as Hd. rewrite app_nil_r in Hd. change (decode_all []) with (@nil (Z * list Z)) in Hd.
+    fold s in Hd. rewrite Hd.
+    rewrite parse_loop_S. rewrite step_open_nobrace by exact Hm.
+    apply (loop_matchers [m] ltac:(constructor; [exact Hm|constructor]) ltac:(discriminate) [] false).
+    simpl. lia.
+  Qed.
+
+  (* print then parse, a braced list of any length *)
+  Lemma roundtrip_list ms : Forall plain ms ->
+    utf8_matchers is_space compiles (print_list_b is_space is_print ms) = Ok ms.
+  Proof.
+    intros Hms. rewrite utf8_matchers_eq_raw. unfold utf8_parse_raw.
+    set (s := print_list_b is_space is_print ms).
+    rewrite (parse_loop_irrel _ (S (length s + 6 + 3 * length ms)) _ _ (phi_open s)) by (pose proof (phi_open s); lia).
+    assert (Hd : decode_all s = asc 123 :: (jr ms ++ [asc 125])).
+    { unfold s, print_list_b. rewrite (decode_all_canon_app 123 [123]) by (apply canon_ascii_intro; lia).
+      rewrite decode_join by exact Hms. reflexivity. }
+    rewrite Hd. destruct ms as [|m r].
+    - reflexivity.
+    - destruct (jr_first m r) as [tl Htl]. rewrite parse_loop_S, Htl.
+      rewrite step_open_brace by exact (Forall_inv Hms). rewrite <- Htl.
+      apply (loop_matchers (m :: r) Hms ltac:(discriminate) [] true). simpl. lia.
+  Qed.
+End RoundTrip.
+
+Lemma fine_iff {A} (r : res A) : fine r <-> r <> Panic /\ r <> Err "fuel".
+Proof.
+  destruct r; simpl.
+  - split; [intros _; split; discriminate|tauto].
+  - split; [intros H; split; [discriminate|congruence]|intros [_ H] E; subst; congruence].
+  - split; [tauto|intros [H _]; congruence].
+Qed.
+
+(* fallback mode on a printed text: the UTF-8 result stands unless the classic parser accepts the text with a
+   different result *)
+Lemma fallback_roundtrip_cond {A} `{EqDecision A} (c : res A) (v : A) :
+  c <> Panic -> (forall cv, c = Ok cv -> cv = v) -> fallback (Ok v) c = Ok v.
+Proof.
+  intros Hp Hc. destruct c as [cv|e|]; [|reflexivity|congruence].
+  rewrite (Hc cv eq_refl). apply fallback_both_accept.
+Qed.
+
+Lemma classic_matchers_no_panic is_space compiles s : classic_matchers is_space compiles s <> Panic.
+Proof. pose proof (classic_matchers_fine is_space compiles s) as H. intros E. rewrite E in H. exact H. Qed.
